@@ -37,7 +37,9 @@ PROBE_NAMES = ["Byte", "Cursor", "T"]
 
 STRINGS = ["", "plain", "say \"hi\"", "back\\slash", "tab\there", "it's", "what??/", "??=x??(", "a?b??", "%d {} {0}",
            "new\nline", "<tag> & \"q\"", "\\\"", "trailing\\", "café €", "/* c */ // x", "R\"(raw)\"", "\\0\\n", "?",
-           "a\rb", "\x7f"]
+           "a\rb", "\x7f",
+           # a control character directly followed by an octal digit (a variable-width octal escape would swallow it)
+           "one of:\n1 = Buy\n2 = Sell", "tab\t7", "\x7f0", "\x017"]
 
 
 class T:
